@@ -55,6 +55,7 @@ class FileProxy(object):
         self.reads = 0
         self.spin_limit = spin_limit
         self.closed = False
+        self.close_delay = 0
 
     def read(self, n=None):
         self.reads += 1
@@ -78,6 +79,10 @@ class FileProxy(object):
     def close(self):
         self.closed = True
         self.log.emit('io.fclose', gen=self.gen)
+        if self.close_delay:
+            # delay injection at an existing suspension point: disconnect()
+            # has shut the socket down and is about to close the stream
+            time.sleep(self.close_delay)
         return self.inner.close()
 
 
@@ -147,6 +152,7 @@ def monitored_connection_class():
         vf_wrap = True
         vf_connect_hook = None     # called at the start of _connect()
         vf_sndbuf = None           # SO_SNDBUF to set on the new socket
+        vf_close_delay = 0         # pause between socket shutdown and stream close
 
         def __setattr__(self, name, value):
             # observes who replaces the packet reactor (state shared between
@@ -182,6 +188,7 @@ def monitored_connection_class():
                 self.socket = SocketProxy(
                     self.socket, log, self.vf_rng, self.vf_send_yield,
                     self.vf_send_hook, gen=self.vf_generation)
+                self.file_object.close_delay = self.vf_close_delay
                 self.vf_file_proxies = getattr(self, 'vf_file_proxies', [])
                 self.vf_file_proxies.append(self.file_object)
 
